@@ -40,7 +40,7 @@ CLAIMED.update({
          "note": "BOUNDED, not proved: 246 (group, file) cases x six run methods. next_by_line's nested generator loop is not under contract. Assumes members share no mutable state.",
          "tech": BT},
  "C09": {"cat": "other", "text": "Proved: the run manifest's status / all_valid / all_completed / error_count written by ResultsRegistrar.register_complete are the conjunction / conjunction / sum over the members (unbounded loops, prefix_sum spec function). Bounded: every archived file of 48 real runs (4 groups x 2 files x six methods) is read back and compared with the in-memory results and its fingerprint.",
-         "note": "Proved too: ResultSerializer._save writes meta/errors/vars.json with exactly the given content into the member's directory (ghost effect log). data.csv, unmatched.csv, printouts.txt, the member manifest (ResultRegistrar) are BOUNDED only; json/csv/hashlib external.",
+         "note": "Proved too: ResultSerializer._save writes meta/errors/vars.json with exactly the given content into the member's directory, and ResultRegistrar.register_complete / metadata_update write a member manifest whose valid / completed / error_count / actual_data_file / identity are the csvpath's (ghost effect log). data.csv, unmatched.csv, printouts.txt, fingerprints are BOUNDED only; json/csv/hashlib external.",
          "tech": BT},
  "C10": {"cat": "other", "text": "Proved: get_run_dir returns a path for which os.path.exists is False under base/<named-paths name>/ (while loop + invariant, file system as uninterpreted predicate); clear_run_coordination forgets the run directory; the strftime format read from the source is strictly monotone in the timestamp and equals the format the :last/:first reader parses (VCs over directive fields). Bounded: run sequences with a scripted clock.",
          "note": "Assumes strftime/strptime directive semantics; bounded: all sequences of length <=2, all length-3 of one group, stride sample of the rest.",
@@ -53,7 +53,7 @@ CLAIMED.update({
          "tech": BT},
 })
 CLAIMED.update({
- "C11": {"cat": "other", "text": "Proved: FileRegistrar.register_complete distributes exactly one manifest entry per change of the CURRENT version (bytes or source file name) and none for a repeat, comparing with the last entry only. Bounded: operation sequences {add, mutate source, remove, new instance} on the real FileManager against the abstract view name -> versions the property gives (content addressing, immutability of every registered version, fresh-instance agreement).",
+ "C11": {"cat": "other", "text": "Proved: FileManager.add_named_file copies the given file into the name's home once and registers it once, under the given name, with the fingerprint and path _fingerprint returned for the copied bytes; FileRegistrar.register_complete distributes exactly one manifest entry per change of the CURRENT version (bytes or source file name) and none for a repeat, comparing with the last entry only. Bounded: operation sequences {add, mutate source, remove, new instance} on the real FileManager against the abstract view name -> versions the property gives (content addressing, immutability of every registered version, fresh-instance agreement).",
          "note": "_copy_in / _fingerprint (shutil, os.rename, hashlib) are covered only by the bounded sequences; no '#mark' / s3 paths.",
          "tech": BT},
  "C12": {"cat": "other", "text": "Proved (unbounded member lists, loop invariants over array-encoded lists): _find_one / _get_from / _get_to select exactly the member, the suffix and the prefix at the first matching identity; CsvPath.identity's precedence id>Id>ID>name>Name>NAME; PathsRegistrar.metadata_update writes one manifest entry carrying the fingerprint per change of the last fingerprint and none for an identical re-add (effect log for json.dump). Bounded: add / re-add / replace / remove / new-instance sequences and round trips on the real PathsManager.",
@@ -66,7 +66,7 @@ CLAIMED.update({
          "tech": BT},
 })
 CLAIMED.update({
- "C16": {"cat": "other", "text": "Proved: Print._decide_match sends exactly one entry per execution iff the onchange/once gates are open and records it (so print.once holds for every printer, named ones included); PrintParser._ref_from_dict returns the tracked value / stack item / length whatever it is (0 and '' included). Bounded: every template of 1..3 items over 17 item kinds is rendered through the real Lark grammar/transformer and compared with the statement's render function; onmatch/once gating; empty output.",
+ "C16": {"cat": "other", "text": "Proved: Print._decide_match (default and named printer) sends exactly one entry per execution iff the onchange/once gates are open, records it (so print.once holds for every printer) and leaves earlier printouts untouched; PrintParser._handle_local reads $.variables / $.headers / $.metadata from this csvpath's live stores; PrintParser._ref_from_dict returns the tracked value / stack item / length whatever it is (0 and '' included). Bounded: every template of 1..3 items over 17 item kinds is rendered through the real Lark grammar/transformer and compared with the statement's render function; onmatch/once gating; empty output.",
          "note": "Text fidelity through Lark's Earley tokenisation is BOUNDED only. One known finding: references closer than two characters lose/reorder the characters between them.",
          "tech": BT},
 })
@@ -81,7 +81,7 @@ CLAIMED.update({
          "tech": BT},
 })
 CLAIMED.update({
- "C03": {"cat": "other", "text": "Proved for all inputs: CsvPath.set_variable / get_variable write and read exactly the addressed variable or tracking value and leave every other entry of the store untouched (frame quantified over the whole store; a frozen run changes nothing; 0 and None are values); raise_match_count_if / _consider_line / LineMonitor.next_line keep match_count, scan_count and the 0-based/1-based line counters; first, tally, count, counter, sum, push, pop, count_lines, line_number, count_scans perform exactly the documented read-modify-write against the abstract store. Bounded: the end-to-end fold over 5 program families x 4 scans x 120 (thorough 2500) generated files.",
+ "C03": {"cat": "other", "text": "Proved for all inputs: CsvPath.set_variable / get_variable write and read exactly the addressed variable or tracking value and leave every other entry of the store untouched (frame quantified over the whole store; a frozen run changes nothing; 0 and None are values); raise_match_count_if / _consider_line / LineMonitor.next_line keep match_count, scan_count and the 0-based/1-based line counters; first, tally, count, counter, sum, push, pop, count_lines, line_number, count_scans perform exactly the documented read-modify-write against the abstract store, which Matcher.get_variable / set_variable hand to CsvPath's store functions unchanged. Bounded: the end-to-end fold over 5 program families x 4 scans x 120 (thorough 2500) generated files.",
          "note": "The variable store is a nested dict: plain variables are proved over dict[str -> value], tracking dicts over one named entry holding dict[str -> value] (string tracking keys) -- other shapes, list-valued variables at end of run, every(), subtotal(), string-to-number conversion of cells are BOUNDED only.",
          "tech": BT},
 })
